@@ -43,7 +43,7 @@ def impl_piece(value, st):
                 text = pp.pformat(value, indent=indent, width=width, depth=depth, ribbon_width=ribbon,
                                   max_seq_len=msl, sort_dict_keys=sort)
             piece = '(%s %s)' % (sdocs_to_sx(sd), sx_str('text', text))
-        except Exception as e:
+        except (Exception, common.ImplTimeout) as e:
             return '(error %s)' % type(e).__name__, None, ['raised']
     kinds = []
     for x in w:
